@@ -2,7 +2,7 @@
    (every entry belongs to a non-jailed record at its power) and unique (one entry per validator). *)
 From stdpp Require Import gmap.
 Require Import Model.Base Model.Validate Model.State Model.Staking.
-Require Import proofs.Inv.
+Require Import proofs.EvBasic proofs.Inv.
 Open Scope Z_scope.
 
 Lemma pair_eqb_eq a b : pair_eqb a b = true <-> a = b.
